@@ -334,6 +334,7 @@ func init() {
 		for _, f := range []string{"alerts", "limits", "destroyed", "perAlertLimit"} {
 			n += o.LockedAccesses("am/store.Alerts", f, "Mutex", map[string]string{"am/store.NewAlerts": "constructor"})
 		}
+		lockBalanceRule(o, "am/limit", "am/store", "am/api")
 		o.Check(n >= 15, "few", "implausibly few guarded accesses: "+itoa(n), nil)
 		o.MinSites(15)
 	})
